@@ -82,6 +82,10 @@ CHECKS = {
          "Every encrypted value is decoded and decrypted with the wrapper the reference model says is in force, every HMAC recomputed with x/crypto hkdf + crypto/hmac; per-event wrappers (determinism, id dependence), salt/info precedence, all rotation histories up to depth 3 (4 thorough) through Rotate and rotation payloads, and Rotate || Process || Process under every schedule within the bound: each value verifies wholly under the old or the new material. Found and fixed: an unlocked wrapper read (race) and a mix of an old-derived event key with new salt/info.",
          "AES-GCM / HKDF / HMAC libraries are trusted as oracles; NewEventWrapper re-derives the event wrapper.",
          "DESIGN.md §3 C16"),
+ "C19": ("stateless model checking of compositions of the library's own nodes under a controlled scheduler with the Go race detector active on every explored schedule",
+         "212 compositions - every ordered pair of the nine stock node kinds placed so that both work on the same *Event concurrently (X inside pipeline 1, Y at the head of pipeline 2), with separate and shared instances, 1-2 senders and a control thread (Broker.Reopen, encrypt Rotate, cloudevents Rotate; FileSink rotates by size on a real directory) - are explored over all schedules within the stated bounds; each execution is race-checked inside the scheduler and every sink's received writes must be whole JSON lines. Found and fixed: cloudevents Rotate vs signing. Known finding: encrypt.Filter's copy of the shared event races with another pipeline's formatter.",
+         "Happens-before race detection on the explored synchronisation orders (no false positives; bounded detector history means a reported race is not necessarily re-reported on replay). Bounds per scenario are in its name.",
+         "DESIGN.md §3 C19"),
 }
 
 NOT_YET = "check not built yet in this session (work in progress; see DESIGN.md for the plan)"
